@@ -267,6 +267,26 @@ var extReadOnly = map[string]bool{
 	"github.com/mattn/go-colorable": true, "github.com/mattn/go-isatty": true, "github.com/mgutz/ansi": true,
 }
 
+// extMutator: methods of otherwise read-only packages that change their
+// receiver (a shared *template.Template or *regexp.Regexp is safe to execute
+// concurrently, not to (re)parse or reconfigure).
+func extMutator(pkg, full string) bool {
+	name := full
+	if i := strings.LastIndexByte(full, '.'); i >= 0 {
+		name = full[i+1:]
+	}
+	switch pkg {
+	case "html/template", "text/template":
+		switch name {
+		case "Parse", "Funcs", "New", "Delims", "Option", "AddParseTree", "ParseFiles", "ParseGlob", "ParseFS":
+			return true
+		}
+	case "regexp":
+		return name == "Longest"
+	}
+	return false
+}
+
 // extMutatesArg0: functions that write through their first argument.
 var extMutatesArg0 = map[string]bool{
 	"sort.Ints": true, "sort.Strings": true, "sort.Sort": true, "sort.Slice": true, "sort.SliceStable": true, "sort.Stable": true, "sort.Float64s": true,
@@ -547,7 +567,11 @@ func (s *ptSolver) genCall(f *ssa.Function, c ssa.CallInstruction) {
 			return
 		}
 		pkg := calleePkg(callee)
-		full := pkg + "." + callee.Name()
+		cname := callee.Name()
+		if i := strings.IndexByte(cname, '['); i >= 0 {
+			cname = cname[:i] // instantiation of a generic function
+		}
+		full := pkg + "." + cname
 		var args []int
 		for _, a := range com.Args {
 			args = append(args, s.node(a))
@@ -562,7 +586,7 @@ func (s *ptSolver) genCall(f *ssa.Function, c ssa.CallInstruction) {
 				s.dyn = append(s.dyn, ptDyn{fnNode: s.node(a), call: nil, bound: map[*ssa.Function]bool{}})
 			}
 		}
-		if val != nil && extSubSlice(pkg, callee.Name()) && len(com.Args) > 0 {
+		if val != nil && extSubSlice(pkg, cname) && len(com.Args) > 0 {
 			// the results are sub-slices of the first argument: same objects, nothing new
 			if t, ok := val.Type().(*types.Tuple); ok {
 				for i := 0; i < t.Len(); i++ {
@@ -587,9 +611,9 @@ func (s *ptSolver) genCall(f *ssa.Function, c ssa.CallInstruction) {
 					}
 				}
 			}
-			if !extFreshResult(pkg, callee.Name()) {
+			if !extFreshResult(pkg, cname) {
 				argsIn := com.Args
-				if extAliasesArg0Only(pkg, callee.Name()) && len(argsIn) > 0 {
+				if extAliasesArg0Only(pkg, cname) && len(argsIn) > 0 {
 					argsIn = argsIn[:1] // the result is a sub-slice of the first argument
 				}
 				for _, a := range argsIn {
